@@ -1192,7 +1192,7 @@ pub(crate) fn get_member_attrs(input: SynDataTypeMember, bark: bool) -> Result<M
             MemberInstruction::As(attr) => {
                 match input {
                     SynDataTypeMember::Field(f) => add_as_type_attrs(f, attr, &mut attrs.attrs),
-                    SynDataTypeMember::Variant(_) => unreachable!("1"),
+                    SynDataTypeMember::Variant(v) => attrs.error_instrs.push(MemberInstruction::UnrecognizedWithError { instr: "as_type".into(), span: v.ident.span() }),
                 };
             },
             MemberInstruction::Lit(attr) => attrs.lit_attrs.push(attr),
